@@ -13,6 +13,17 @@ CHECKS = {
          'Differential test against bitwise CRC-16/XMODEM and CRC-32C: all strings of length <=2 exhaustively (reaches every table entry from every high-byte state), structured and random longer strings.',
          'Trusts the bitwise reference (self-checked against the published check values 0x31C3 / 0xE3069283).', '§6 C18'),
 }
+CHECKS.update({
+ 'C01': ('exhaustive enumeration (all 1024 bit lengths x 3 fills x 0..4 refs) + Hypothesis DAG generation, differential vs independent recursive cell-hash model, all construction routes',
+         'Differential test of every node of generated ordinary-cell DAGs (sharing, chains/ladders to depth 1023) against an independent reference of the TON representation hash/depth, through builder, Cell(TvmBitarray), Cell(plain bitarray), parsed reference-encoded BoC, copy, slice and builder conversions; equality/hash/dict-key behaviour checked against hash equality on planted clones and near-clones.',
+         'Trusts hashlib.sha256 and harness/ref/refcell.py (reproduces the two hashes pinned in tests/test_cell.py). Exploration: bit contents are sampled, lengths/ref counts exhaustive.', '§6 C01'),
+ 'C02': ('exhaustive enumeration of pruned masks 1..7 x parent shapes + Hypothesis exotic-DAG generation: differential vs reference model and model-free metamorphic pruning relation',
+         'Two independent oracles: (1) reference model of level masks and per-level hashes/depths for pruned/library/Merkle proof/Merkle update cells at every node, through builder, constructor and BoC-parse routes (must not raise); (2) model-free metamorphic relation: replacing a node by its pruned branch of level d leaves get_hash(j)/get_depth(j) of every ancestor unchanged whenever j + (Merkle cells on the path) < d.',
+         'Trusts refcell.py for oracle 1 (validated on the pinned main-net block for masks 0/1; masks >=2 cross-checked by oracle 2, which needs no model).', '§6 C02'),
+ 'C20': ('exhaustive enumeration (all 512 signature bit flips; id-order grid) + Hypothesis generation; two-ended relational oracle, libsodium as independent verifier, independent mnemonic derivation',
+         'Both peers of an ADNL channel are modelled for generated seed pairs (both id orders, equal ids) and both directions checked with the packet-layout facts; signatures verified positively by libsodium and negatively under every tamper kind; generated mnemonics validated against an independent statement of the rule and key derivation against an independent PBKDF2 derivation.',
+         'Trusts libsodium (PyNaCl), hashlib/hmac, harness/ref/refkeys.py. mnemonic_new draws from os.urandom (drawn words saved in the failure detail).', '§6 C20'),
+})
 NOT_YET = {}
 
 def main():
